@@ -28,7 +28,7 @@ RULE = ("complete enumeration of %d configurations: edge kind (odometry, landmar
 NBIND = {"quick": 1200, "thorough": 40000}
 PLAN = {
     "quick": {"cases": NCOMBO + NBIND["quick"], "soft_s": 100, "min_nontrivial": NCOMBO, "require": ["eval:accept-iff-consistent", "eval:bound-by-id", "eval:accepted-edge-usable", "consistent_configurations",
-                                                                                  "inconsistent_configurations", "edge_prebound:named", "edge_prebound:stale", "lookalike_pairs", "file_binding_cases", "contiguous_id_range_listed_out_of_order"]},
+                                                                                  "inconsistent_configurations", "edge_prebound:named", "edge_prebound:stale", "lookalike_pairs", "file_binding_cases", "contiguous_id_range_listed_out_of_order", "empty_vertex_list_with_bound_edges"]},
     "thorough": {"cases": NCOMBO * 12 + NBIND["thorough"], "soft_s": 1200, "min_nontrivial": NCOMBO * 12, "require": ["eval:accept-iff-consistent", "eval:bound-by-id", "eval:accepted-edge-usable",
                                                                                                 "consistent_configurations", "inconsistent_configurations"]},
 }
@@ -107,6 +107,16 @@ def binding_case(ctx, i, rng):
             raised = type(ex).__name__
         ctx.check("accept-iff-consistent", raised is not None, {"where": "whole-graph", "why": "reused edge names a vertex id that is not in the new graph"}, {"raised": raised},
                   {"graph": {k: v for k, v in spec.items() if k != "truth_by_id"}, "missing_id": str(gone.id)})
+    # no vertices at all (an empty list / tuple): every id the (still bound) edges name is unknown to such a graph
+    for empty in ([], ()):
+        raised = None
+        try:
+            M.Graph(list(g._edges), empty)
+        except Exception as ex:
+            raised = type(ex).__name__
+        ctx.check("accept-iff-consistent", raised is not None, {"where": "whole-graph", "why": "bound edges listed with an empty vertex %s" % type(empty).__name__}, {"raised": raised},
+                  {"graph": {k: v for k, v in spec.items() if k != "truth_by_id"}})
+    ctx.count("empty_vertex_list_with_bound_edges")
     ctx.nontrivial("bind:%d" % i)
 
 
